@@ -212,8 +212,8 @@ theorem foldl_acc_fixed [Semiring K] [AddCommMonoid V] [Module K V] (step : V â†
   | cons x w ih =>
     rw [List.foldl_cons, h, ih, List.sum_cons, add_smul, add_assoc]
 
-theorem wsum_eq_sum [AddMonoid K] (w : List K) : wsum w = w.sum := by
-  unfold wsum
+theorem weightSum_eq_sum [AddMonoid K] (w : List K) : weightSum w = w.sum := by
+  unfold weightSum
   rw [List.sum_eq_foldl]
 
 theorem sum_map_div [DivisionRing K] (w : List K) (t : K) : (w.map (Â· / t)).sum = w.sum / t := by
